@@ -47,7 +47,7 @@ func conversionCollectionToList(ety cty.Type, conv conversion) conversion {
 			}
 
 			if val.IsNull() {
-				val = cty.NullVal(val.Type().WithoutOptionalAttributesDeep())
+				val = cty.NullVal(val.Type().WithoutOptionalAttributesDeep()).WithSameMarks(val)
 			}
 
 			elems = append(elems, val)
@@ -101,7 +101,7 @@ func conversionCollectionToSet(ety cty.Type, conv conversion) conversion {
 			}
 
 			if val.IsNull() {
-				val = cty.NullVal(val.Type().WithoutOptionalAttributesDeep())
+				val = cty.NullVal(val.Type().WithoutOptionalAttributesDeep()).WithSameMarks(val)
 			}
 
 			elems = append(elems, val)
@@ -260,7 +260,7 @@ func conversionTupleToSet(tupleType cty.Type, setEty cty.Type, unsafe bool) conv
 			}
 
 			if val.IsNull() {
-				val = cty.NullVal(val.Type().WithoutOptionalAttributesDeep())
+				val = cty.NullVal(val.Type().WithoutOptionalAttributesDeep()).WithSameMarks(val)
 			}
 
 			elems = append(elems, val)
@@ -546,7 +546,7 @@ func conversionMapToObject(mapType cty.Type, objType cty.Type, unsafe bool) conv
 			}
 
 			if val.IsNull() {
-				val = cty.NullVal(val.Type().WithoutOptionalAttributesDeep())
+				val = cty.NullVal(val.Type().WithoutOptionalAttributesDeep()).WithSameMarks(val)
 			}
 
 			elems[name.AsString()] = val
